@@ -206,7 +206,7 @@ func main() {
 		replay(rep)
 		return
 	}
-	n := 32
+	n := 24
 	if lib.Tier() == "thorough" {
 		n = 250
 	}
